@@ -754,18 +754,25 @@ class Prims:
             if not rets:
                 return False
             for r in rets:
-                v = r.value
-                if isinstance(v, ast.Call) and call_name(v) == "hex" and not v.args:
-                    continue
-                if isinstance(v, ast.Name):
-                    continue_ok = False
-                    for d in defs_of(self.A, c.fn, v.id):
-                        if isinstance(d.value, ast.Call) and call_name(d.value) == "hex":
-                            continue_ok = True
-                    if continue_ok:
-                        continue
-                return False
+                if not self._hex_valued(r.value, c.fn):
+                    return False
         return True
+
+    def _hex_valued(self, v, fn, depth=0):
+        """Expression that always evaluates to a hexadecimal string: x.hex(), an even-length
+        hex literal, a concatenation of those, or a local name only ever bound to such."""
+        if depth > 4 or v is None:
+            return False
+        if isinstance(v, ast.Call) and call_name(v) == "hex" and isinstance(v.func, ast.Attribute) and not v.args:
+            return True
+        if isinstance(v, ast.Constant) and isinstance(v.value, str):
+            return len(v.value) % 2 == 0 and all(ch in "0123456789abcdefABCDEF" for ch in v.value)
+        if isinstance(v, ast.BinOp) and isinstance(v.op, ast.Add):
+            return self._hex_valued(v.left, fn, depth + 1) and self._hex_valued(v.right, fn, depth + 1)
+        if isinstance(v, ast.Name):
+            ds = defs_of(self.A, fn, v.id)
+            return bool(ds) and all(self._hex_valued(d.value, fn, depth + 1) for d in ds)
+        return False
 
     def _hex_established(self, node, arg, fn, sc, depth=0):
         """A call f(arg) completed normally before `node` where f's normal
